@@ -293,7 +293,7 @@ Lemma circ_attach_only_registered : forall s sid src,
        src = SrcIp ip port /\ table_get (ip, port) (table s) = Some (oid, k) /\
        let s1 := with_table s (table_del (ip, port) (table s)) in
        (circ_attach s sid src = (with_oos s1, [])
-        \/ exists r a, (a = AKNone \/ a = AKCirc oid) /\
+        \/ exists r a, (a = AKDoNot \/ a = AKCirc oid) /\
                        circ_attach s sid src = then_ (att_fire s1 k r) (fun s2 => issue s2 sid a)).
 Proof.
   intros s sid src. destruct src as [|p|ip port]; cbn [circ_attach issue]; auto.
@@ -484,12 +484,12 @@ Lemma maybe_attach_grows sid s sid' host src answers :
   grows sid (if sid' =? sid then 1 else 0) s (maybe_attach s sid' host src answers).
 Proof.
   unfold maybe_attach. destruct (slot s) as [v|]; [|apply quiet_grows_n; repeat split; reflexivity].
-  destruct (contains (str ".exit") host); [apply quiet_grows_n; repeat split; reflexivity|].
+  destruct (ends_with (str ".exit") (lower host)); [apply quiet_grows_n; repeat split; reflexivity|].
   destruct v as [j| |].
   - change (if sid' =? sid then 1%nat else 0%nat) with (0 + (if (sid' =? sid)%N then 1 else 0))%nat.
     apply then_grows; [apply quiet_grows; repeat split; reflexivity | apply take_answer_grows].
-  - pose proof (prio_consult_no_writes s sid' answers (heap s)) as W.
-    destruct (prio_consult s sid' answers (heap s)) as [es w]. cbn [fst] in W.
+  - pose proof (prio_consult_no_writes s sid' answers (sort_hents (heap s))) as W.
+    destruct (prio_consult s sid' answers (sort_hents (heap s))) as [es w]. cbn [fst] in W.
     change (if sid' =? sid then 1%nat else 0%nat) with (0 + (if (sid' =? sid)%N then 1 else 0))%nat.
     apply then_grows; [apply quiet_grows; repeat split; exact W|].
     cbn [fst]. destruct w; [apply take_answer_grows | apply issue_grows].
@@ -715,10 +715,10 @@ Qed.
 Lemma maybe_attach_keeps s sid host src answers : keeps s (maybe_attach s sid host src answers).
 Proof.
   unfold maybe_attach. destruct (slot s) as [v|]; [|apply keeps_refl].
-  destruct (contains (str ".exit") host); [apply keeps_refl|].
+  destruct (ends_with (str ".exit") (lower host)); [apply keeps_refl|].
   destruct v as [j| |].
   - apply then_keeps; [apply keeps_refl | apply take_answer_keeps].
-  - destruct (prio_consult s sid answers (heap s)) as [es w].
+  - destruct (prio_consult s sid answers (sort_hents (heap s))) as [es w].
     apply then_keeps; [apply keeps_refl|]. cbn [fst]. destruct w; [apply take_answer_keeps | apply issue_keeps].
   - apply circ_attach_keeps.
 Qed.
@@ -957,9 +957,11 @@ Definition w_prio_heap : list op :=
      [{| a_kind := AKDoNot; a_mode := MPlain |}; {| a_kind := AKNone; a_mode := MPlain |}; {| a_kind := AKNone; a_mode := MPlain |}];
    OFlush].
 
-Lemma via_closed_refuted : wf w_via_closed = true /\ run_oos w_via_closed = false /\ oracle w_via_closed (run w_via_closed) = false.
+(* the former witnesses of C09-F1, F2, F3 (all repaired in /repo) are accepted now *)
+Lemma via_closed_accepted : wf w_via_closed = true /\ run_oos w_via_closed = false /\ oracle w_via_closed (run w_via_closed) = true.
 Proof. vm_compute. auto. Qed.
-Lemma exit_inside_refuted : wf w_exit_inside = true /\ run_oos w_exit_inside = false /\ oracle w_exit_inside (run w_exit_inside) = false.
+(* the former witnesses of C09-F2 and C09-F3 (repaired in /repo) are accepted now *)
+Lemma exit_inside_accepted : wf w_exit_inside = true /\ oracle w_exit_inside (run w_exit_inside) = true.
 Proof. vm_compute. auto. Qed.
-Lemma prio_heap_refuted : wf w_prio_heap = true /\ run_oos w_prio_heap = false /\ oracle w_prio_heap (run w_prio_heap) = false.
+Lemma prio_heap_accepted : wf w_prio_heap = true /\ oracle w_prio_heap (run w_prio_heap) = true.
 Proof. vm_compute. auto. Qed.
